@@ -636,10 +636,10 @@ func (g *Generator) buildRootMapUnwrapSchema(rootUnwrap *rootUnwrapInfo) *base.S
 		// Combined unwrap: map values are unwrapped arrays
 		schema.AdditionalProperties = g.createUnwrapArraySchema(rootUnwrap.valueUnwrap)
 	case rootUnwrap.valueMessage != nil:
-		// Map with message values
-		schemaRef := fmt.Sprintf("#/components/schemas/%s", g.getSchemaName(rootUnwrap.valueMessage))
+		// Map with message values: same value schema as a non-root map
+		// (a reference, or the primitive form of google.protobuf.Timestamp)
 		schema.AdditionalProperties = &base.DynamicValue[*base.SchemaProxy, bool]{
-			A: base.CreateSchemaProxyRef(schemaRef),
+			A: g.convertScalarField(getMapValueField(rootUnwrap.field)),
 		}
 	default:
 		// Map with scalar values
